@@ -8,19 +8,21 @@ F_has_a == [op |-> "has", k |-> "a"]
 Cfg0 == [ttl |-> 600, mttl |-> 60, ord |-> FALSE, filt |-> NoFilter, minB |-> 2, maxB |-> 3,
          dlt |-> "", maxAtt |-> 0, push |-> "", labels |-> <<>>]
 C1 == [name |-> "s1", topic |-> "t1", cfg |-> [Cfg0 EXCEPT !.dlt = "t2", !.maxAtt = 2]]
-C2 == [name |-> "s2", topic |-> "t2", cfg |-> [Cfg0 EXCEPT !.dlt = "t3", !.maxAtt = 1]]
+C2 == [name |-> "s2", topic |-> "t2", cfg |-> [Cfg0 EXCEPT !.dlt = "t3", !.maxAtt = 1, !.mttl = 7]]
 C3 == [name |-> "s3", topic |-> "t2", cfg |-> [Cfg0 EXCEPT !.filt = F_has_a, !.ord = TRUE]]
 C4 == [name |-> "s4", topic |-> "t3", cfg |-> Cfg0]
-C5 == [name |-> "s5", topic |-> "t1", cfg |-> [Cfg0 EXCEPT !.dlt = "t1", !.maxAtt = 3, !.mttl = 25]]
+C5 == [name |-> "s5", topic |-> "t1", cfg |-> [Cfg0 EXCEPT !.dlt = "t1", !.maxAtt = 3, !.mttl = 9]]
 C6 == [name |-> "s6", topic |-> "t1", cfg |-> [Cfg0 EXCEPT !.dlt = "t3", !.maxAtt = 0]]
+C7 == [name |-> "s6", topic |-> "t1", cfg |-> [Cfg0 EXCEPT !.dlt = "t2", !.maxAtt = 1, !.mttl = 6]]
 mcTopicNames == {"t1", "t2", "t3"}
 mcSubNames == {"s1", "s2", "s3", "s4", "s5", "s6"}
 mcSnapNames == {}
-mcSubCfgs == {C1, C2, C3, C4, C5, C6}
+mcSubCfgs == {C1, C2, C3, C4, C5, C6, C7}
 mcSetup == << [op |-> "CreateTopic", name |-> "t1"], [op |-> "CreateTopic", name |-> "t2"],
               [op |-> "CreateTopic", name |-> "t3"],
               [op |-> "CreateSub", c |-> C1], [op |-> "CreateSub", c |-> C2],
-              [op |-> "CreateSub", c |-> C3], [op |-> "CreateSub", c |-> C4] >>
+              [op |-> "CreateSub", c |-> C3], [op |-> "CreateSub", c |-> C4],
+              [op |-> "CreateSub", c |-> C7] >>
 mcMsgKinds == { [key |-> "", attrs |-> <<>>], [key |-> "K", attrs |-> [a |-> "x"]], [key |-> "K", attrs |-> <<>>] }
 mcPrefixPairs == {<<"x", "">>, <<"x", "x">>}
 mcTickDs == {1, 2, 3, 5, 13}
